@@ -87,3 +87,47 @@ pub fn sample_alphabet(run: &Run, sc: &Scenario) {
     }
     let _ = PoolKey::new(Denom::Mel, Denom::Sym);
 }
+
+/// A sealed node reached honestly in which an earlier DoscMint raised the recorded DOSC speed above its genesis value
+/// (block 1 splits the genesis coin, block 2 holds a TIP-910 mint of difficulty 14 from a one-block-old coin).
+/// Returns the node and the two remaining puzzle coins (id, value, creation height).
+pub fn root_with_speed_record(run: &Run, net: NetID) -> Option<(Node, Vec<(CoinID, u128, u64)>)> {
+    use crate::refstf::Tip910Hash;
+    let eng = Engine::new(run);
+    let (_w, rootn) = root(net, 0, false);
+    let open1 = match eng.step(&rootn, &Action::Open) {
+        StepOut::Next(x) => x,
+        _ => return None,
+    };
+    let split = tx_t(TxKind::Normal, vec![CoinID::zero_zero()], vec![out_t(400_000_000, Denom::Mel), out_t(300_000_000, Denom::Mel), out_t(300_000_000, Denom::Mel)], 0, vec![]);
+    let n1 = match eng.step(&open1, &Action::Batch { label: "split-genesis".into(), txs: vec![split.clone()], expect_ok: true }) {
+        StepOut::Next(x) => x,
+        _ => return None,
+    };
+    let sealed1 = match eng.step(&n1, &Action::Seal(None)) {
+        StepOut::Next(x) => x,
+        _ => return None,
+    };
+    let hdr1 = sealed1.view().header();
+    let open2 = match eng.step(&sealed1, &Action::Open) {
+        StepOut::Next(x) => x,
+        _ => return None,
+    };
+    let coin = split.output_coinid(0);
+    let pz = tmelcrypt::hash_keyed(hdr1.hash(), stdcode::serialize(&coin).unwrap());
+    let proof = melpow::Proof::generate(&pz, 14, Tip910Hash).to_bytes();
+    let mint = tx_t(TxKind::DoscMint, vec![coin], vec![out_t(400_000_000, Denom::Mel)], 0, stdcode::serialize(&(14u32, proof)).unwrap());
+    let n2 = match eng.step(&open2, &Action::Batch { label: "mint(d=14,tip910) setting a speed record".into(), txs: vec![mint], expect_ok: true }) {
+        StepOut::Next(x) => x,
+        _ => return None,
+    };
+    let sealed2 = match eng.step(&n2, &Action::Seal(None)) {
+        StepOut::Next(x) => x,
+        _ => return None,
+    };
+    if sealed2.view().header().dosc_speed <= hdr1.dosc_speed {
+        return None;
+    }
+    let h = sealed1.model.height;
+    Some((sealed2, vec![(split.output_coinid(1), 300_000_000, h), (split.output_coinid(2), 300_000_000, h)]))
+}
